@@ -1,6 +1,7 @@
 package main
 
 import (
+	"os"
 	"runtime/debug"
 	"strings"
 	"fmt"
@@ -65,6 +66,7 @@ type JobResult struct {
 	Funcs        map[string]int        `json:"functions"`
 	Reach        map[string]int        `json:"reach"`
 	Queries      int                   `json:"solver_queries"`
+	Fallbacks    int                   `json:"cvc5_fallbacks"`
 	SolverTime   float64               `json:"solver_time_s"`
 	IfConv       int                   `json:"ifconverted"`
 	Reordered    []string              `json:"reordered_loads"`
@@ -200,6 +202,10 @@ func (e *Explorer) runPath(m *Machine, it workItem) {
 		return
 	}
 	rec := len(jr.Transcripts) < e.record && idx < e.record
+	dumpDir := os.Getenv("GOSYM_DUMP_UNKNOWN")
+	if dumpDir != "" {
+		rec = true
+	}
 	jr.mu.Unlock()
 	pathStart := time.Now()
 
@@ -227,6 +233,7 @@ func (e *Explorer) runPath(m *Machine, it workItem) {
 	m.Reordered = map[string]bool{}
 	m.Obligs, m.Discharged, m.IfConv = 0, 0, 0
 	q0, t0 := m.sol.Queries, m.sol.Time
+	fb0 := m.sol.Fallbacks
 	nerr := len(m.sol.Errors)
 	m.sol.BeginPath(rec)
 
@@ -272,6 +279,15 @@ func (e *Explorer) runPath(m *Machine, it workItem) {
 	for s := range stubs {
 		delete(m.intr, s)
 	}
+	if dumpDir != "" {
+		for _, a := range m.sol.Answers {
+			if a == "unknown" {
+				os.WriteFile(fmt.Sprintf("%s/%s-%d.smt2", dumpDir, sanitize(jr.Name), idx), []byte(strings.Join(m.sol.Script, "\n")), 0o644)
+				break
+			}
+		}
+		rec = len(jr.Transcripts) < e.record && idx < e.record
+	}
 	var tr Transcript
 	if rec {
 		tr = Transcript{Script: append([]string{}, m.sol.Script...), Answers: append([]string{}, m.sol.Answers...)}
@@ -293,6 +309,7 @@ func (e *Explorer) runPath(m *Machine, it workItem) {
 	jr.Discharged += m.Discharged
 	jr.IfConv += m.IfConv
 	jr.Queries += m.sol.Queries - q0
+	jr.Fallbacks += m.sol.Fallbacks - fb0
 	jr.SolverTime += (m.sol.Time - t0).Seconds()
 	if aborted && len(m.pathViol) == 0 {
 		jr.Aborted++
